@@ -38,6 +38,20 @@ int main(void)
 		while (*p == ' ' || *p == '|') p++;
 		n = strtol(p, &p, 10);
 		for (int i = 0; i < n; i++) freq[strtol(p, &p, 10) & 1023].mask |= FREQ_TYPE_HOPP;
+		/* optional: an earlier decode on the same freq[] array ("| len0 hex0"), as when SI4 is received again */
+		while (*p == ' ' || *p == '|') p++;
+		if (*p && *p != '\n') {
+			int len0 = strtol(p, &p, 10);
+			while (*p == ' ') p++;
+			uint8_t *ma0 = malloc(len0 > 0 ? len0 : 1);
+			if (*p == '-') p++;
+			else for (int i = 0; i < len0; i++) { unsigned v; sscanf(p, "%2x", &v); ma0[i] = v; p += 2; }
+			uint16_t *h0 = malloc(64 * sizeof(uint16_t));
+			uint8_t *l0 = malloc(1);
+			*l0 = 0;
+			gsm48_decode_mobile_alloc(freq, ma0, (uint8_t)len0, h0, l0, si4);
+			free(ma0); free(h0); free(l0);
+		}
 		uint16_t *hopping = malloc(64 * sizeof(uint16_t));
 		for (int i = 0; i < 64; i++) hopping[i] = 0xeeee;
 		uint8_t *hopp_len = malloc(1);
